@@ -222,8 +222,10 @@ def from_python_json(text):
         def __init__(self, lit):
             self.lit = lit
 
-    return conv(json.loads(text, object_pairs_hook=Obj, parse_float=Num, parse_int=Num,
-                           parse_constant=lambda c: (_ for _ in ()).throw(Bad("constant " + c))))
+    def no_constant(c):
+        raise Bad("constant " + c)
+
+    return conv(json.loads(text, object_pairs_hook=Obj, parse_float=Num, parse_int=Num, parse_constant=no_constant))
 
 
 def cps_of(pystr):
